@@ -56,6 +56,9 @@ def check(spec):
     es.set_variable_values(x, iterate_index=0)
     m.before_nonlinear_iteration()
     A, b = es.assemble(state=x.copy())
+    if not (np.all(np.isfinite(b)) and np.all(np.isfinite(A.data))):
+        # the random state overflowed an exponential law (possible with extreme simulation units): not a smooth point
+        return {"labels": ["discarded-nonfinite-state"], "nontrivial": False}
     blocks = {k: np.array(v) for k, v in es.assembled_equation_indices.items()}
     require(A.shape == (b.size, n), "jacobian-shape", f"{A.shape} vs ({b.size},{n})")
     rng = np.random.default_rng([spec["pseed"], 7])
@@ -64,7 +67,9 @@ def check(spec):
     xs = max(float(np.abs(x).max()), 1.0)
     res = {}
     b0 = es.assemble(evaluate_jacobian=False, state=x.copy())
-    require(np.array_equal(np.asarray(b0), np.asarray(b)) or np.allclose(b0, b, rtol=1e-13, atol=1e-14), "residual-only",
+    # (value-only and value+Jacobian evaluation use slightly different floating-point operations, e.g. a / b versus
+    # a * b**-1, so the comparison is norm-wise; exact agreement of the two assembly modes is the subject of C06)
+    require(float(np.abs(np.asarray(b0) - np.asarray(b)).max()) <= 1e-9 * max(float(np.abs(b).max()), 1e-300), "residual-only",
             "residual-only assembly differs from the residual of the full assembly")
     for h in (1e-5 * xs, 1e-6 * xs, 1e-7 * xs):
         bp = es.assemble(evaluate_jacobian=False, state=x + h * v)
